@@ -448,13 +448,11 @@ impl<'a> Machine<'a> {
             BinOp::Mod | BinOp::And | BinOp::Or => {
                 let xa = self.round_operand(&x, path)?;
                 let yb = self.round_operand(&y, path)?;
-                let in16 = |v: i128| (-32768..=32767).contains(&v);
-                if !in16(xa) || !in16(yb) {
-                    self.triggers.insert("mod-and-or-beyond-integer-range");
-                    if xa < -2147483648 || xa > 2147483647 || yb < -2147483648 || yb > 2147483647 {
-                        return self.err(6, path);
-                    }
+                let both_int = x.ty == Ty::Int && y.ty == Ty::Int;
+                if xa < -2147483648 || xa > 2147483647 || yb < -2147483648 || yb > 2147483647 {
+                    return self.err(6, path);
                 }
+                let rty = if both_int { Ty::Int } else { Ty::Long };
                 match op {
                     BinOp::Mod => {
                         if yb == 0 {
@@ -462,10 +460,10 @@ impl<'a> Machine<'a> {
                             return self.err(11, path);
                         }
                         let r = xa % yb; // sign of the dividend
-                        Ok(Val::N(Num::whole(if in16(xa) && in16(yb) { Ty::Int } else { Ty::Long }, r as i64)))
+                        Ok(Val::N(Num::whole(rty, r as i64)))
                     }
-                    BinOp::And => Ok(Val::N(Num::whole(if in16(xa) && in16(yb) { Ty::Int } else { Ty::Long }, (xa & yb) as i64))),
-                    _ => Ok(Val::N(Num::whole(if in16(xa) && in16(yb) { Ty::Int } else { Ty::Long }, (xa | yb) as i64))),
+                    BinOp::And => Ok(Val::N(Num::whole(rty, (xa & yb) as i64))),
+                    _ => Ok(Val::N(Num::whole(rty, (xa | yb) as i64))),
                 }
             }
             o => {
@@ -1234,6 +1232,13 @@ pub fn static_ty(prog: &Program, e: &Expr) -> Ty {
                         Ty::Double
                     } else {
                         Ty::Single
+                    }
+                }
+                BinOp::Mod | BinOp::And | BinOp::Or => {
+                    if ta == Ty::Int && tb == Ty::Int {
+                        Ty::Int
+                    } else {
+                        Ty::Long
                     }
                 }
                 _ => Ty::Int,
